@@ -31,8 +31,12 @@ def tu_cfgs(tier):
     return c + [(s_, n_) for s_ in SPECS for n_ in SCAN_N if (s_, n_) not in c]   # wrappers used only by the native scan
 
 
+GRP_P = 4
+
+
 def tu_text(cf):
-    return '#include "vfit.hpp"\n' + "\n".join('extern "C" void fit_%d_%d(const double* i, double* o){ vfit::fit1d<%d,%d>(i,o);}' % (s, n, s, n) for s, n in cf) + "\n"
+    grp = "\n".join('extern "C" void fitg_%d_%s(const double* i, double* o){ vfit::fitgrp<%d, smooth::%sd, %d>(i,o);}' % (s_, g_, s_, g_, GRP_P) for s_ in SPECS for g_ in ("SO3", "SE2"))
+    return '#include "vfit.hpp"\n' + grp + "\n" + "\n".join('extern "C" void fit_%d_%d(const double* i, double* o){ vfit::fit1d<%d,%d>(i,o);}' % (s, n, s, n) for s, n in cf) + "\n"
 
 
 def deriv_at(c, K, d, end):
@@ -238,6 +242,72 @@ def job_scan(cfall, tier):
     return res
 
 
+def job_scan_group(cfall, tier):
+    """SUPPLEMENTARY, native only (fit_spline on Lie groups is not encoded symbolically, DESIGN 13.6): the natively built fit_spline is run on
+    SO3 and SE2 data (4 points, non-uniform stamps, consecutive differences inside the injectivity radius) for every specification and the
+    curve is evaluated at and on both sides of every data point: interpolation from both sides, continuous body velocity for degree >= 3,
+    rest at both ends where the specification asks for it.  It can only add violations."""
+    res = check.Result()
+    h = check.Harness("fit_" + tier, tu_text(cfall))
+    P = GRP_P
+    npts = 0
+    for gname in ("SO3", "SE2"):
+        g = G.BASIC[gname]
+        R, D = g.rep, g.dof
+        for spec, (name, K, inn, left, rght) in SPECS.items():
+            worst = (0.0, None)
+            for pat, ts in enumerate(([0.0, 1.0, 2.0, 3.0], [0.0, 0.4, 2.4, 2.9], [0.0, 3.0, 3.5, 8.5], [0.0, 0.1, 0.2, 0.3])):
+                r = random.Random(17 * pat + spec)
+                gs = [g.random_element(r, 1.0)]
+                import ctypes
+                inp0 = list(ts)
+                # consecutive data by composing with small group elements through the library itself (rplus wrapper of the group TU is not
+                # in this TU): use random elements close to each other instead
+                for i in range(1, P):
+                    gs.append(g.random_element(r, 1.0))
+                inp = inp0 + [x for e in gs for x in e]
+                out = h.native("fitg_%d_%s" % (spec, gname), inp, P * 3 * (R + D))
+                npts += 1
+                blk = R + D
+
+                def val(i, k):
+                    o = (i * 3 + (k + 1)) * blk
+                    return out[o:o + R], out[o + R:o + blk]
+                for i in range(P):
+                    # q and -q are the same rotation for SO3: compare up to the sign of the quaternion part
+                    for k in (-1, 0, 1):
+                        v, vel = val(i, k)
+                        e1 = max(abs(a - b) for a, b in zip(v, gs[i]))
+                        if gname == "SO3":
+                            e1 = min(e1, max(abs(a + b) for a, b in zip(v, gs[i])))
+                        sc = max(1.0, max(abs(x) for x in gs[i]))
+                        tol = 1e-6 if k == 0 else 1e-4
+                        if e1 / sc > tol and e1 / sc / tol > worst[0]:
+                            worst = (e1 / sc / tol, ("value at t_%d%s differs from the data point by %.3g" % (i, {-1: " (left limit)", 0: "", 1: " (right limit)"}[k], e1), inp, out))
+                    if K >= 3 and 0 < i < P - 1:
+                        vl, vr = val(i, -1)[1], val(i, 1)[1]
+                        ev = max(abs(a - b) for a, b in zip(vl, vr))
+                        sv = 1.0 + max(abs(x) for x in vl)
+                        if ev / sv > 1e-3 and ev / sv / 1e-3 > worst[0]:
+                            worst = (ev / sv / 1e-3, ("body velocity jumps by %.3g at t_%d" % (ev, i), inp, out))
+                if 1 in left:
+                    for i, k in ((0, 0), (P - 1, 0)):
+                        vel = val(i, k)[1]
+                        ev = max(abs(x) for x in vel)
+                        if ev > 1e-5 and ev / 1e-5 > worst[0]:
+                            worst = (ev / 1e-5, ("specification asks for rest at the boundary, body velocity is %.3g at t_%d" % (ev, i), inp, out))
+            key = "fit_spline/%s/%s/native" % (gname, name)
+            if worst[1] is not None:
+                what, inp, out = worst[1]
+                res.violations.append({"key": key, "what": "%s: %s (time stamps %r)" % (key, what, inp[:P]),
+                                       "replay": {"property": PID, "key": key, "tu_name": h.name, "tu_text": h.text, "fn": "fitg_%d_%s" % (spec, gname), "inputs": inp, "nout": len(out),
+                                                  "native": out, "err": worst[0], "tol": 1.0, "obligation": what, "lhs": "native", "rhs": "data point / continuity"}})
+                res.add_raw(key + "-scan", "violated", "native replay: " + what)
+    res.notes.append("fit_spline on SO3/SE2: supplementary native scan, %d fits x %d data points (value, one-sided limits, velocity continuity, boundary rest)" % (npts, P))
+    res.paths, res.steps = 1, 1
+    return res
+
+
 OPT_TOL = Fraction(1, 10**4)
 
 
@@ -302,6 +372,7 @@ def main(tier):
         else:
             jobs.append((job, (c, cfT, tier)))
     jobs.append((job_scan, (cfT, tier)))
+    jobs.append((job_scan_group, (cfT, tier)))
     run.extend(check.run_jobs(jobs, timeout=1500 if tier == "quick" else 1800))
     run.bounds += ["(spec, segments): %s ; dt_i in [1e-2, 1e2] symbolic (any ratio), dx_i symbolic" % [(SPECS[s][0], n) for s, n in cf if s not in MINDER],
                    "MinDerivative<5,3,3> and <6,3,3>: dt fixed to %s (N=1)%s, dx_i symbolic" % ([tuple(str(x) for x in v) for v in DT_FIXED[1]], (" and %s (N=2)" % [tuple(str(x) for x in v) for v in (DT_FIXED[2] if tier == "thorough" else DT_FIXED[2][1:2])])),
